@@ -460,3 +460,113 @@ def inspect_source(mod):
 
 
 UNITS["chains"] = unit_chains
+
+
+# ------------------------------------------------------------------ C03: source layouts
+def _lambda_code(src):
+    code = compile(src, "<expected>", "eval")
+    for c in code.co_consts:
+        if hasattr(c, "co_code"):
+            return c
+    return None
+
+
+def same_code(a, b):
+    "two code objects are the same function body (positions ignored)"
+    if a is None or b is None:
+        return False
+    if a.co_code != b.co_code or a.co_names != b.co_names or a.co_varnames != b.co_varnames or a.co_argcount != b.co_argcount:
+        return False
+    ca = [c for c in a.co_consts]
+    cb = [c for c in b.co_consts]
+    if len(ca) != len(cb):
+        return False
+    for x, y in zip(ca, cb):
+        if hasattr(x, "co_code") or hasattr(y, "co_code"):
+            if not (hasattr(x, "co_code") and hasattr(y, "co_code") and same_code(x, y)):
+                return False
+        elif x != y or type(x) is not type(y):
+            return False
+    return True
+
+
+def unit_layouts(u):
+    from vlib import srcgen
+    from vlib.skel import layouts
+    import func_adl.object_stream as osm
+    from func_adl import EventDataset
+
+    class DS(EventDataset):
+        async def execute_result_async(self, a, title=None):
+            return a
+
+    res = UnitResult()
+    all_cases = layouts.cases(u["seed"], u.get("thorough", False))
+    cases_ = all_cases[u["lo"]:u["hi"]]
+    text = layouts.render(cases_)
+    records = []
+    real = osm.parse_as_ast
+
+    def recorder(f, caller_name=None):
+        if not callable(f):
+            return real(f, caller_name)
+        try:
+            r = real(f, caller_name)
+        except Exception as e:  # noqa
+            records.append((f, caller_name, None, e))
+            raise
+        records.append((f, caller_name, r, None))
+        return r
+
+    res.layout_stats = {"cases": len(cases_), "calls": 0, "recovered_identical": 0, "raised_undocumented": 0, "by_kind": {}}
+    with srcgen.Scratch() as sc:
+        try:
+            mod = sc.load(text, "c03")
+        except Exception as e:  # noqa
+            res.harness.append("generated layout module does not import: %r" % (e,))
+            return res
+        osm.parse_as_ast = recorder
+        try:
+            for k, c in enumerate(cases_):
+                del records[:]
+                label = "%s / %s" % (c["kind"], c.get("ctx"))
+                try:
+                    getattr(mod, "case_%d" % k)(DS())
+                    case_exc = None
+                except Exception as e:  # noqa
+                    case_exc = e
+                if case_exc is not None and (not records or records[-1][3] is not case_exc):
+                    res.harness.append("layout case raised outside source recovery: %r\n%s" % (case_exc, c["code"]))
+                    continue
+                bk = res.layout_stats["by_kind"].setdefault(c["kind"], 0)
+                res.layout_stats["by_kind"][c["kind"]] = bk + 1
+                for i, (f, caller, got, exc) in enumerate(records):
+                    res.layout_stats["calls"] += 1
+                    if i >= len(c["lams"]):
+                        res.harness.append("more calls recorded than the generator expects: %s" % c["code"])
+                        break
+                    exp_src = c["lams"][i]
+                    if f.__name__ == "<lambda>" and not same_code(f.__code__, _lambda_code(exp_src)):
+                        res.harness.append("the callable passed is not the lambda the generator believes (%s): %s" % (exp_src, c["code"]))
+                        continue
+                    payload = dict(engine="T", unit="layouts", layout=c["code"], context=c.get("ctx"), expected=exp_src, caller=caller, label=label, documented=c["documented"], N=u["N"])
+                    if exc is not None:
+                        if c["documented"]:
+                            res.violations.append(dict(payload, kind="documented layout not recovered: %s: %s" % (type(exc).__name__, str(exc)[:200]), program=exp_src))
+                        else:
+                            res.layout_stats["raised_undocumented"] += 1
+                        continue
+                    P = ast.Call(ast.Name("Select", ast.Load()), [ast.Name("ds", ast.Load()), ast.parse(exp_src, mode="eval").body], [])
+                    P2 = ast.Call(ast.Name("Select", ast.Load()), [ast.Name("ds", ast.Load()), got], [])
+                    if ast.dump(P) == ast.dump(P2):
+                        res.layout_stats["recovered_identical"] += 1
+                    st = decide_pair(P, P2, u["N"], res, label, rtypes={"f": "i"}, payload_extra=dict(payload, recovered=ast.unparse(got)[:400]))
+                    if st == tv.SKIP and ast.dump(P) != ast.dump(P2):
+                        res.violations.append(dict(payload, kind="recorded lambda differs from the one passed (not encodable, compared structurally)", program=exp_src,
+                                                   recovered=ast.unparse(got)[:400]))
+        finally:
+            osm.parse_as_ast = real
+    return res
+
+
+UNITS["layouts"] = unit_layouts
